@@ -247,6 +247,11 @@ func scribble(c *CfgCore) {
 			m[poisonS] = poisonI
 		}
 	}
+	for _, m := range c.MA {
+		if m != nil {
+			m[poisonS] = poisonI
+		}
+	}
 	for k, l := range c.MM {
 		for i := range l {
 			l[i] = poisonS
